@@ -62,6 +62,7 @@ func (x *c02Exp) try(class, what string, key, nonce, sealed, ad []byte) {
 		}
 	}
 	a := newAEAD(x.kind, key)
+	nonceCopy := append([]byte(nil), nonce...)
 	x.seq++
 	for pi, path := range x.ps {
 		// dst mode 7: nil dst; 2,5: in place; else guarded window. Mode and guard
@@ -106,6 +107,29 @@ func (x *c02Exp) try(class, what string, key, nonce, sealed, ad []byte) {
 		})
 		m.Eval()
 		m.Count(path+"_"+class, 1)
+		// inputs are not outputs: nonce, ad, the presented ciphertext (in-place
+		// mode: its tag bytes; the payload part is the documented output window)
+		// must be unchanged, whatever the verdict
+		if fault == nil {
+			changed := ""
+			switch {
+			case !bytes.Equal(gad, ad):
+				changed = "ad"
+			case !bytes.Equal(nonce, nonceCopy):
+				changed = "nonce"
+			case mode == 2 || mode == 5:
+				if n >= 0 && !bytes.Equal(gct[n:], sealed[n:]) {
+					changed = "ciphertext-tag(in-place)"
+				}
+			case !bytes.Equal(gct, sealed):
+				changed = "ciphertext"
+			}
+			m.Count("inputs_verified_unchanged", 1)
+			if changed != "" {
+				m.Violation("input-modified:open-tampered:"+path+":"+changed, map[string]any{"path": path, "kind": kindName(x.kind), "class": class, "modification": what, "dst_mode": mode,
+					"key": mon.FullHex(key), "nonce": mon.FullHex(nonceCopy), "ad": mon.FullHex(ad), "sealed": mon.FullHex(sealed)})
+			}
+		}
 		if len(x.pt) == 129 && (class == "ct-bit" || class == "tag-bit") {
 			m.Count(path+"_len129_bits_flipped", 1)
 		}
@@ -167,6 +191,37 @@ func (x *c02Exp) try(class, what string, key, nonce, sealed, ad []byte) {
 			w["prefix_now"], w["spare_now"] = mon.Hex(d.region[:d.p]), mon.Hex(d.region[d.p+d.win:])
 			m.Violation("failed-open-damaged-canary:"+path, w)
 		}
+	}
+}
+
+// selfSealed runs enumerate a second time, per path, on the message as the
+// implementation's OWN Seal on that path produces it — but only when that
+// differs from the spec-sealed one (then C01 is violated, and the statement
+// "Open rejects what differs from the values used by Seal" has to be judged
+// against what Seal really emitted; on a conforming tree this never happens and
+// costs one Seal per path).
+func (x *c02Exp) selfSealed(enumerate func(x *c02Exp)) {
+	a := newAEAD(x.kind, x.key)
+	for _, path := range x.ps {
+		var own, back []byte
+		var err error
+		onPath(path, func() {
+			own = a.Seal(nil, x.nonce, x.pt, x.ad)
+			back, err = a.Open(nil, x.nonce, own, x.ad)
+		})
+		x.m.Count("self_sealed_compared", 1)
+		if bytes.Equal(own, x.seal) {
+			continue
+		}
+		x.m.Count("self_sealed_differs_from_spec:"+path, 1)
+		if err != nil || !bytes.Equal(back, x.pt) {
+			x.m.Inconclusive(fmt.Sprintf("%s Seal on %s differs from the spec and its own Open does not return the plaintext (C01's concern); self-sealed tamper experiment skipped", kindName(x.kind), path))
+			continue
+		}
+		y := *x
+		y.seal = own
+		y.ps = []string{path}
+		enumerate(&y)
 	}
 }
 
@@ -242,13 +297,13 @@ func cat(bs ...[]byte) []byte {
 func TestC02(t *testing.T) {
 	m := mon.New(t, "C02")
 	defer m.Done()
-	m.Rule("fault enumeration: for each kind (chacha, xchacha) and payload length in {0,1,8,15,16,17,32,33,63..65,127..129,192,193,255..257,320,321,511..513,1024,4096} a message sealed by the executable spec is modified by the harness in exactly one way and presented to Open on every path (asm, generic; purego build): every single bit of ct‖tag (quick tier: every bit up to 1 KiB sealed size, 2000 positions incl. both ends above), every bit of nonce, key and ad, truncation/extension by 1..32 at either end (zero and random bytes), bytes removed/inserted in front of the tag, ad shortened/zero-extended, every prefix shorter than a tag, swapped ad/ct, random multi-byte edits; additionally messages whose true final Poly1305 accumulator is constructed at the edges of the final reduction / tag addition (h in 0..4, p-1, p-5, carry into 2^128, limb boundaries) with every tag bit and the arithmetic neighbours of the tag (+-1, +-5, +-2^64, +-(2^64+-5), +-2^32, +-2^96); the same for secretbox.Open and box.Open/OpenAfterPrecomputation/OpenAnonymous (Curve25519's ignored key bits excluded). Oracle: by construction every presented tuple differs from the sealed one => must be rejected; leak clause: dst window pre-filled with the complement of the would-be plaintext (ref key stream), a run of >= 8 would-be plaintext bytes after a failed Open is a violation. distinct = (path, kind, tamper class, asm length branch, dst mode)")
+	m.Rule("fault enumeration: for each kind (chacha, xchacha) and payload length in {0,1,8,15,16,17,32,33,63..65,127..129,192,193,255..257,320,321,511..513,1024,4096} a message sealed by the executable spec is modified by the harness in exactly one way and presented to Open on every path (asm, generic; purego build): every single bit of ct‖tag (quick tier: every bit up to 1 KiB sealed size, 2000 positions incl. both ends above), every bit of nonce, key and ad, truncation/extension by 1..32 at either end (zero and random bytes), bytes removed/inserted in front of the tag, ad shortened/zero-extended, long additional data (255, 256, 257, 272, 511..513, 1000, 4096, 65552 bytes: one bit in every byte position up to 1000 bytes and stride-sampled above, all bits at both ends and at positions 0/15/16 mod 16 and mod 256, truncation/extension by 1..32, AD cut to its first len mod 256 / mod 65536 bytes), every prefix shorter than a tag, swapped ad/ct, random multi-byte edits; additionally messages whose true final Poly1305 accumulator is constructed at the edges of the final reduction / tag addition (h in 0..4, p-1, p-5, carry into 2^128, limb boundaries) with every tag bit and the arithmetic neighbours of the tag (+-1, +-5, +-2^64, +-(2^64+-5), +-2^32, +-2^96); the same for secretbox.Open and box.Open/OpenAfterPrecomputation/OpenAnonymous (Curve25519's ignored key bits excluded). Oracle: by construction every presented tuple differs from the sealed one => must be rejected; leak clause: dst window pre-filled with the complement of the would-be plaintext (ref key stream), a run of >= 8 would-be plaintext bytes after a failed Open is a violation. distinct = (path, kind, tamper class, asm length branch, dst mode)")
 	m.Assume("the sealed messages come from h/ref/aead8439 (AEAD) and are confirmed authentic by an unmodified Open on each path before tampering; NaCl boxes are sealed by the package itself and cross-checked against libsodium " + sodiumaead.Version())
 	m.Assume("Curve25519 ignores bit 255 of a public key and clamps bits 0,1,2,254,255 of a private key: flips of those bits give an equivalent key and are not presented as modifications")
 
 	ps := paths()
 	ctA := guard.New(8192)
-	adA := guard.New(4096)
+	adA := guard.New(c02MaxAD + 64)
 	dstA := guard.New(8192)
 	defer ctA.Free()
 	defer adA.Free()
@@ -260,7 +315,8 @@ func TestC02(t *testing.T) {
 	nBox := 3 * len(c02BoxLens)
 	conTargets := c02ConTargets()
 	nCon := 2 * len(c02ConLens) * len(conTargets)
-	total := nAEAD + nSB + nBox + nCon
+	nLongAD := 2 * len(c02LongADLens)
+	total := nAEAD + nSB + nBox + nCon + nLongAD
 
 	m.Cases("units", total, func(i int64, r *rand.Rand) {
 		u := int(i)
@@ -274,6 +330,9 @@ func TestC02(t *testing.T) {
 		case u < nAEAD+nSB+nBox:
 			v := u - nAEAD - nSB
 			c02BoxUnit(m, r, v/len(c02BoxLens), c02BoxLens[v%len(c02BoxLens)])
+		case u >= nAEAD+nSB+nBox+nCon:
+			v := u - nAEAD - nSB - nBox - nCon
+			c02LongADUnit(m, r, ps, v/len(c02LongADLens), v%len(c02LongADLens), ctA, adA, dstA)
 		default:
 			v := u - nAEAD - nSB - nBox
 			ti := v % len(conTargets)
@@ -293,6 +352,13 @@ func TestC02(t *testing.T) {
 	for _, p := range []string{"asm", "generic", "purego"} {
 		m.Gate(p+"_constructed_authentic_accepted", nCon*9/10, "authentic messages with a constructed final Poly1305 accumulator accepted before tampering on the "+p+" path")
 		m.Gate(p+"_tag-arith", nCon*9/10*len(c02TagDeltas()), "arithmetic neighbours of the tag of constructed messages presented on the "+p+" path")
+	}
+	for _, p := range []string{"asm", "generic", "purego"} {
+		m.Gate(p+"_long-ad-bit", c02LongADGate["bit"], "bit flips in additional data of 255..65552 bytes on the "+p+" path")
+		m.Gate(p+"_long-ad-trunc", c02LongADGate["trunc"], "truncations of long additional data on the "+p+" path")
+		m.Gate(p+"_long-ad-ext", c02LongADGate["ext"], "extensions of long additional data on the "+p+" path")
+		m.Gate(p+"_long-ad-prefix", c02LongADGate["prefix"], "long additional data replaced by its first (len mod 256 / mod 65536) bytes on the "+p+" path")
+		m.Gate(p+"_long_ad_authentic_accepted", nLongAD, "authentic long-AD messages accepted before tampering on the "+p+" path")
 	}
 	m.Gate("secretbox_box-bit", 2*8*(16+129), "secretbox box bits flipped (both builds)")
 	m.Gate("secretbox_key-bit", 2*256*len(c02Lens), "secretbox key bits flipped")
@@ -328,77 +394,82 @@ func c02AEADUnit(m *mon.M, r *rand.Rand, ps []string, kind, li, group int, allBi
 		}
 	}
 	m.Count("baseline_authentic", len(ps))
-	switch group {
-	case 0: // every bit of ct ‖ tag
-		for _, b := range bitPositions(r, len(x.seal), allBits || len(x.seal) <= 1024+16, 2000) {
-			class := "ct-bit"
-			if b/8 >= n {
-				class = "tag-bit"
-			}
-			x.try(class, fmt.Sprintf("sealed bit %d flipped", b), x.key, x.nonce, flipBit(x.seal, b), x.ad)
-		}
-	case 1: // every bit of nonce, key, ad
-		for b := 0; b < len(x.nonce)*8; b++ {
-			x.try("nonce-bit", fmt.Sprintf("nonce bit %d flipped", b), x.key, flipBit(x.nonce, b), x.seal, x.ad)
-		}
-		for b := 0; b < 256; b++ {
-			x.try("key-bit", fmt.Sprintf("key bit %d flipped", b), flipBit(x.key, b), x.nonce, x.seal, x.ad)
-		}
-		for b := 0; b < len(x.ad)*8; b++ {
-			x.try("ad-bit", fmt.Sprintf("ad bit %d flipped", b), x.key, x.nonce, x.seal, flipBit(x.ad, b))
-		}
-	case 2: // length changes and structural edits
-		ct, tag := x.seal[:n], x.seal[n:]
-		for k := 1; k <= c02MaxExt; k++ {
-			if k <= len(x.seal) {
-				x.try("trunc", fmt.Sprintf("last %d bytes removed", k), x.key, x.nonce, x.seal[:len(x.seal)-k], x.ad)
-				x.try("trunc", fmt.Sprintf("first %d bytes removed", k), x.key, x.nonce, x.seal[k:], x.ad)
-			}
-			x.try("ext", fmt.Sprintf("%d zero bytes appended", k), x.key, x.nonce, cat(x.seal, make([]byte, k)), x.ad)
-			x.try("ext", fmt.Sprintf("%d random bytes appended", k), x.key, x.nonce, cat(x.seal, mon.Bytes(r, k)), x.ad)
-			x.try("ext", fmt.Sprintf("%d zero bytes prepended", k), x.key, x.nonce, cat(make([]byte, k), x.seal), x.ad)
-			x.try("ext", fmt.Sprintf("%d random bytes prepended", k), x.key, x.nonce, cat(mon.Bytes(r, k), x.seal), x.ad)
-			if k <= 16 {
-				if k <= n {
-					x.try("ct-shortened", fmt.Sprintf("%d bytes removed in front of the tag", k), x.key, x.nonce, cat(ct[:n-k], tag), x.ad)
+	enumerate := func(x *c02Exp) {
+		n := len(x.seal) - 16
+		switch group {
+		case 0: // every bit of ct ‖ tag
+			for _, b := range bitPositions(r, len(x.seal), allBits || len(x.seal) <= 1024+16, 2000) {
+				class := "ct-bit"
+				if b/8 >= n {
+					class = "tag-bit"
 				}
-				x.try("ct-zero-padded", fmt.Sprintf("%d zero bytes inserted in front of the tag", k), x.key, x.nonce, cat(ct, make([]byte, k), tag), x.ad)
-				if k <= len(x.ad) {
-					x.try("ad-shortened", fmt.Sprintf("last %d ad bytes removed", k), x.key, x.nonce, x.seal, x.ad[:len(x.ad)-k])
+				x.try(class, fmt.Sprintf("sealed bit %d flipped", b), x.key, x.nonce, flipBit(x.seal, b), x.ad)
+			}
+		case 1: // every bit of nonce, key, ad
+			for b := 0; b < len(x.nonce)*8; b++ {
+				x.try("nonce-bit", fmt.Sprintf("nonce bit %d flipped", b), x.key, flipBit(x.nonce, b), x.seal, x.ad)
+			}
+			for b := 0; b < 256; b++ {
+				x.try("key-bit", fmt.Sprintf("key bit %d flipped", b), flipBit(x.key, b), x.nonce, x.seal, x.ad)
+			}
+			for b := 0; b < len(x.ad)*8; b++ {
+				x.try("ad-bit", fmt.Sprintf("ad bit %d flipped", b), x.key, x.nonce, x.seal, flipBit(x.ad, b))
+			}
+		case 2: // length changes and structural edits
+			ct, tag := x.seal[:n], x.seal[n:]
+			for k := 1; k <= c02MaxExt; k++ {
+				if k <= len(x.seal) {
+					x.try("trunc", fmt.Sprintf("last %d bytes removed", k), x.key, x.nonce, x.seal[:len(x.seal)-k], x.ad)
+					x.try("trunc", fmt.Sprintf("first %d bytes removed", k), x.key, x.nonce, x.seal[k:], x.ad)
 				}
-				x.try("ad-zero-padded", fmt.Sprintf("%d zero bytes appended to ad", k), x.key, x.nonce, x.seal, cat(x.ad, make([]byte, k)))
-			}
-		}
-		for k := 0; k < 16 && k < len(x.seal); k++ {
-			x.try("short-input", fmt.Sprintf("only the first %d bytes", k), x.key, x.nonce, x.seal[:k], x.ad)
-			x.try("short-input", fmt.Sprintf("only the last %d bytes", k), x.key, x.nonce, x.seal[len(x.seal)-k:], x.ad)
-		}
-		if !bytes.Equal(ct, x.ad) {
-			x.try("swap-ad-ct", "ad and ciphertext exchanged", x.key, x.nonce, cat(x.ad, tag), ct)
-		}
-		if len(x.ad) > 0 {
-			x.try("ad-moved-into-ct", "ad prepended to ct, ad emptied", x.key, x.nonce, cat(x.ad, x.seal), nil)
-		}
-		x.try("tag-zero", "tag replaced by zeros", x.key, x.nonce, cat(ct, make([]byte, 16)), x.ad)
-		x.try("tag-ff", "tag replaced by ff", x.key, x.nonce, cat(ct, bytes.Repeat([]byte{0xff}, 16)), x.ad)
-		for e := 0; e < 32; e++ {
-			mod := append([]byte(nil), x.seal...)
-			w := 1 + r.IntN(8)
-			at := r.IntN(len(mod))
-			changed := false
-			for j := at; j < at+w && j < len(mod); j++ {
-				nb := byte(r.Uint32())
-				if nb != mod[j] {
-					changed = true
+				x.try("ext", fmt.Sprintf("%d zero bytes appended", k), x.key, x.nonce, cat(x.seal, make([]byte, k)), x.ad)
+				x.try("ext", fmt.Sprintf("%d random bytes appended", k), x.key, x.nonce, cat(x.seal, mon.Bytes(r, k)), x.ad)
+				x.try("ext", fmt.Sprintf("%d zero bytes prepended", k), x.key, x.nonce, cat(make([]byte, k), x.seal), x.ad)
+				x.try("ext", fmt.Sprintf("%d random bytes prepended", k), x.key, x.nonce, cat(mon.Bytes(r, k), x.seal), x.ad)
+				if k <= 16 {
+					if k <= n {
+						x.try("ct-shortened", fmt.Sprintf("%d bytes removed in front of the tag", k), x.key, x.nonce, cat(ct[:n-k], tag), x.ad)
+					}
+					x.try("ct-zero-padded", fmt.Sprintf("%d zero bytes inserted in front of the tag", k), x.key, x.nonce, cat(ct, make([]byte, k), tag), x.ad)
+					if k <= len(x.ad) {
+						x.try("ad-shortened", fmt.Sprintf("last %d ad bytes removed", k), x.key, x.nonce, x.seal, x.ad[:len(x.ad)-k])
+					}
+					x.try("ad-zero-padded", fmt.Sprintf("%d zero bytes appended to ad", k), x.key, x.nonce, x.seal, cat(x.ad, make([]byte, k)))
 				}
-				mod[j] = nb
 			}
-			if !changed {
-				mod[at] ^= 0x80
+			for k := 0; k < 16 && k < len(x.seal); k++ {
+				x.try("short-input", fmt.Sprintf("only the first %d bytes", k), x.key, x.nonce, x.seal[:k], x.ad)
+				x.try("short-input", fmt.Sprintf("only the last %d bytes", k), x.key, x.nonce, x.seal[len(x.seal)-k:], x.ad)
 			}
-			x.try("multi-byte", fmt.Sprintf("%d bytes rewritten at %d", w, at), x.key, x.nonce, mod, x.ad)
+			if !bytes.Equal(ct, x.ad) {
+				x.try("swap-ad-ct", "ad and ciphertext exchanged", x.key, x.nonce, cat(x.ad, tag), ct)
+			}
+			if len(x.ad) > 0 {
+				x.try("ad-moved-into-ct", "ad prepended to ct, ad emptied", x.key, x.nonce, cat(x.ad, x.seal), nil)
+			}
+			x.try("tag-zero", "tag replaced by zeros", x.key, x.nonce, cat(ct, make([]byte, 16)), x.ad)
+			x.try("tag-ff", "tag replaced by ff", x.key, x.nonce, cat(ct, bytes.Repeat([]byte{0xff}, 16)), x.ad)
+			for e := 0; e < 32; e++ {
+				mod := append([]byte(nil), x.seal...)
+				w := 1 + r.IntN(8)
+				at := r.IntN(len(mod))
+				changed := false
+				for j := at; j < at+w && j < len(mod); j++ {
+					nb := byte(r.Uint32())
+					if nb != mod[j] {
+						changed = true
+					}
+					mod[j] = nb
+				}
+				if !changed {
+					mod[at] ^= 0x80
+				}
+				x.try("multi-byte", fmt.Sprintf("%d bytes rewritten at %d", w, at), x.key, x.nonce, mod, x.ad)
+			}
 		}
 	}
+	enumerate(x)
+	x.selfSealed(enumerate)
 }
 
 func c02SecretboxUnit(m *mon.M, r *rand.Rand, n int, allBits bool) {
@@ -681,4 +752,91 @@ func c02ConstructedUnit(m *mon.M, r *rand.Rand, ps []string, kind, n int, tgt po
 	for _, d := range c02TagDeltas() {
 		x.try("tag-arith", fmt.Sprintf("constructed %s: tag %+d (mod 2^128)", tgt.name, d), x.key, x.nonce, cat(ct, leAdd128(tag, d)), x.ad)
 	}
+}
+
+// ---- long additional data ----
+
+// AD lengths around the 8-bit and 16-bit length boundaries (the assembly
+// hashes AD in a loop of its own, controlled by the remaining-length register).
+var c02LongADLens = []int{255, 256, 257, 272, 511, 512, 513, 1000, 4096, 65535 + 17}
+
+const c02MaxAD = 65535 + 17 + c02MaxExt
+
+// minimum per-path long-AD tamper counts (the enumeration is seed-independent;
+// these are ~90% of what it yields).
+var c02LongADGate = map[string]int{"bit": 33000, "trunc": 1150, "ext": 1150, "prefix": 30}
+
+// c02LongADUnit: a message with long additional data, sealed by the spec and
+// confirmed authentic on every path; then the AD is modified: one bit in every
+// byte position (lengths <= 1000; stride-sampled above), all 8 bits in the first
+// and last 32 bytes and at positions = 0, 15, 16 mod 16 (<= 1000) / mod 256,
+// truncation/extension by 1..32, and the AD cut to its first len mod 256 (mod
+// 65536) bytes — what a length register compared on 8 (16) bits would hash.
+func c02LongADUnit(m *mon.M, r *rand.Rand, ps []string, kind, li int, ctA, adA, dstA *guard.Arena) {
+	adlen := c02LongADLens[li]
+	n := []int{16, 200, 0, 64, 321}[(li+kind)%5]
+	x := &c02Exp{m: m, kind: kind, ctA: ctA, adA: adA, dstA: dstA, r: r, ps: ps}
+	x.key = mon.Bytes(r, 32)
+	x.nonce = mon.Bytes(r, nonceLen(kind))
+	x.ad = mon.Bytes(r, adlen)
+	x.pt = nonzero(mon.Bytes(r, n))
+	x.seal = aead8439.SealN(x.key, x.nonce, x.pt, x.ad)
+	x.ks = aead8439.PayloadKeystream(x.key, x.nonce, n+2*c02MaxExt+16)
+	a := newAEAD(kind, x.key)
+	for _, path := range ps {
+		var out []byte
+		var err error
+		onPath(path, func() { out, err = a.Open(nil, x.nonce, x.seal, x.ad) })
+		if err != nil || !bytes.Equal(out, x.pt) {
+			m.Inconclusive(fmt.Sprintf("baseline: %s Open rejects the spec-sealed message with %d bytes of AD (payload %d) on %s (acceptance is C01's clause; this unit's tamper results on this path are vacuous)", kindName(kind), adlen, n, path))
+			continue
+		}
+		m.Count(path+"_long_ad_authentic_accepted", 1)
+	}
+	enumerate := func(x *c02Exp) {
+		// bit flips
+		allBits := func(pos int) bool {
+			if pos < 32 || pos >= adlen-32 {
+				return true
+			}
+			if m256 := pos % 256; m256 == 0 || m256 == 15 || m256 == 16 {
+				return true
+			}
+			return adlen <= 1000 && (pos%16 == 0 || pos%16 == 15)
+		}
+		stride := 1
+		switch {
+		case adlen > 10000:
+			stride = 131
+		case adlen > 1000:
+			stride = 7
+		}
+		for pos := 0; pos < adlen; pos++ {
+			switch {
+			case allBits(pos):
+				for b := 0; b < 8; b++ {
+					x.try("long-ad-bit", fmt.Sprintf("ad (%d bytes) bit %d of byte %d flipped", adlen, b, pos), x.key, x.nonce, x.seal, flipBit(x.ad, 8*pos+b))
+				}
+			case pos%stride == 0:
+				x.try("long-ad-bit", fmt.Sprintf("ad (%d bytes) bit %d of byte %d flipped", adlen, pos%8, pos), x.key, x.nonce, x.seal, flipBit(x.ad, 8*pos+pos%8))
+			}
+		}
+		for k := 1; k <= c02MaxExt; k++ {
+			x.try("long-ad-trunc", fmt.Sprintf("last %d of %d ad bytes removed", k, adlen), x.key, x.nonce, x.seal, x.ad[:adlen-k])
+			x.try("long-ad-trunc", fmt.Sprintf("first %d of %d ad bytes removed", k, adlen), x.key, x.nonce, x.seal, x.ad[k:])
+			x.try("long-ad-ext", fmt.Sprintf("%d zero bytes appended to %d ad bytes", k, adlen), x.key, x.nonce, x.seal, cat(x.ad, make([]byte, k)))
+			x.try("long-ad-ext", fmt.Sprintf("%d random bytes appended to %d ad bytes", k, adlen), x.key, x.nonce, x.seal, cat(x.ad, mon.Bytes(r, k)))
+		}
+		for _, mod := range []int{256, 65536} {
+			if adlen >= mod {
+				x.try("long-ad-prefix", fmt.Sprintf("ad cut to its first %d mod %d = %d bytes", adlen, mod, adlen%mod), x.key, x.nonce, x.seal, x.ad[:adlen%mod])
+				// and the complementary cut: only whole multiples kept
+				if adlen%mod != 0 {
+					x.try("long-ad-prefix", fmt.Sprintf("ad cut to its first %d bytes (multiple of %d)", adlen-adlen%mod, mod), x.key, x.nonce, x.seal, x.ad[:adlen-adlen%mod])
+				}
+			}
+		}
+	}
+	enumerate(x)
+	x.selfSealed(enumerate)
 }
